@@ -14,9 +14,14 @@ RULE = ("Linear: 1-6 inputs, 1-3 units, random monotonicities, random ACYCLIC mo
         "normalization none/1/2; rootless monotonic- and range-dominance CYCLES of length 3-6 (accepted by "
         "verify_hyperparameters, ValueError 'Circular monotonicity constraints' from the projection, None in the "
         "model); Categorical: 2-8 buckets, random DAGs of ordering pairs, bounds "
-        "none/min/max/both; weight classes: random dyadic, ties, zeros, sign-feasible, far (+-64). A few "
+        "none/min/max/both; weight classes: random dyadic, ties, zeros, sign-feasible, far (+-64), and 'feasible': "
+        "explicitly CONSTRUCTED weights meeting every configured constraint - Linear: signs per monotonicity, every "
+        "monotonic- and range-dominance inequality satisfied with slack or with a tie, unit norm where a norm is "
+        "configured (and all-zero columns); categorical: values ordered along every pair with ties, inside the "
+        "bounds and often on them - which the projection must return unchanged (today's other classes only test "
+        "idempotence on the projection's own output). A few "
         "rootless cycles (ValueError expected on both sides). Non-trivial = the projection changed the "
-        "weights; distinct = distinct (config, weights).")
+        "weights (or the case is a constructed feasible one); distinct = distinct (config, weights).")
 TRUSTED = ["model: Model/PartialOrder.v + Model/LinearProject.v (hand-written from internal_utils.py, "
            "linear_lib.project, categorical_calibration_lib.project); square root of the order-2 norm is an "
            "oracle in the theorems and a truncated Newton iteration when the model is executed",
@@ -73,6 +78,137 @@ def rand_weights(rng, n, units, klass, monos=None):
       row.append(v)
     W.append(row)
   return W
+
+
+def lin_scalings(d):
+  """Per-input factor of the range-dominance inequalities (sign of the direction times the input range)."""
+  sc = []
+  for m, l, h in zip(d["monos"], d["lo"], d["hi"]):
+    v = -1.0 if m == -1 else 1.0
+    if l is not None and h is not None and h > l:
+      v *= h - l
+    sc.append(v)
+  return sc
+
+
+def lin_slack(d, W):
+  """Smallest slack over every configured Linear constraint of the weights W (>= 0: all hold), and the largest
+  |norm - 1| over the columns that are not numerically zero (0.0 without a norm)."""
+  W = np.asarray(W, dtype=np.float64)
+  slack = np.inf
+  for i, m in enumerate(d["monos"]):
+    if m != 0:
+      slack = min(slack, float((m * W[i]).min()))
+  for dom, weak in d["mdom"]:
+    slack = min(slack, float((W[dom] - W[weak]).min()))
+  sc = lin_scalings(d)
+  for dom, weak in d["rdom"]:
+    slack = min(slack, float((sc[dom] * W[dom] - sc[weak] * W[weak]).min()))
+  off = 0.0
+  if d["norm"]:
+    nr = np.linalg.norm(W, ord=d["norm"], axis=0)
+    off = float(np.where(nr < 1e-8, 0.0, np.abs(nr - 1.0)).max())
+  return slack, off
+
+
+def feasible_linear(rng, d):
+  """Weights meeting EVERY constraint of the Linear configuration d: magnitudes on the 1/8 grid signed by the
+  monotonicity, dominant inputs raised to their weak partners (to a tie, or above by a slack), range dominance on the
+  scaled effects, then normalised (float division; equal entries stay equal) where a norm is configured; one column
+  in eight all-zero. None for configurations with a dominance cycle."""
+  n, units = d["n"], d["units"]
+  sc = [abs(v) for v in lin_scalings(d)]
+  cols = []
+  for _ in range(units):
+    if rng.random() < 0.125:
+      cols.append([0.0] * n)
+      continue
+    mag = [rng.choice([0.0, 0.125, 0.5, 1.0, 1.0, 2.0, 3.5]) for _ in range(n)]
+    for _ in range(n + 2):
+      changed = False
+      for dom, weak in d["mdom"]:
+        if mag[dom] < mag[weak]:
+          mag[dom] = mag[weak] + rng.choice([0.0, 0.0, 0.125, 1.0])
+          changed = True
+      for dom, weak in d["rdom"]:
+        if sc[dom] * mag[dom] < sc[weak] * mag[weak]:
+          # smallest multiple of 1/8 whose scaled effect reaches the weak one (a tie when it lands on the grid)
+          mag[dom] = float(np.ceil(sc[weak] * mag[weak] / sc[dom] * 8.0) / 8.0) + rng.choice([0.0, 0.0, 0.125, 1.0])
+          changed = True
+      if not changed:
+        break
+    else:
+      return None
+    col = [v * (m if m != 0 else rng.choice([-1, 1])) for v, m in zip(mag, d["monos"])]
+    if d["norm"]:
+      nr = float(np.linalg.norm(np.array(col), ord=d["norm"]))
+      if nr > 0:
+        col = [v / nr for v in col]
+    cols.append(col)
+  return [[float(cols[u][i]) for u in range(units)] for i in range(n)]
+
+
+def cat_slack(d, W):
+  """Smallest slack over the ordering pairs and the bounds (>= 0: every categorical constraint holds)."""
+  W = np.asarray(W, dtype=np.float64)
+  slack = np.inf
+  for i, j in d["pairs"]:
+    slack = min(slack, float((W[j] - W[i]).min()))
+  if d["lo"] is not None:
+    slack = min(slack, float(W.min() - d["lo"]))
+  if d["hi"] is not None:
+    slack = min(slack, float(d["hi"] - W.max()))
+  return slack
+
+
+def feasible_categorical(rng, d):
+  """Values ordered along EVERY pair (i, j) - non-decreasing along a topological order of the pair graph, with ties -
+  inside the bounds, the extremes often ON a bound; all on a dyadic grid (exact). None for cyclic pair sets."""
+  n, units = d["n"], d["units"]
+  succ = {i: [] for i in range(n)}
+  indeg = [0] * n
+  for i, j in d["pairs"]:
+    succ[i].append(j)
+    indeg[j] += 1
+  ready = [i for i in range(n) if indeg[i] == 0]
+  order = []
+  while ready:
+    i = ready.pop(rng.randrange(len(ready)))
+    order.append(i)
+    for j in succ[i]:
+      indeg[j] -= 1
+      if indeg[j] == 0:
+        ready.append(j)
+  if len(order) != n:
+    return None
+  lo, hi = d["lo"], d["hi"]
+  cols = []
+  for _ in range(units):
+    steps = [float(rng.choice([0, 0, 1, 1, 2, 4, 8])) for _ in range(n - 1)]
+    span = sum(steps)
+    if lo is not None and hi is not None:
+      room = hi - lo
+    else:
+      room = rng.choice([1.0, 4.0, 8.0])
+    k = 3
+    while span * 2.0 ** -k > room:
+      k += 1
+    vals = [0.0]
+    for v in steps:
+      vals.append(vals[-1] + v * 2.0 ** -k)
+    if lo is not None and hi is not None:
+      base = lo + rng.choice([0.0, room - vals[-1], np.floor((room - vals[-1]) * 4.0) / 8.0])
+    elif lo is not None:
+      base = lo + rng.choice([0.0, 0.0, 0.5])
+    elif hi is not None:
+      base = hi - vals[-1] - rng.choice([0.0, 0.0, 0.5])
+    else:
+      base = tfimpl.dy(rng, -4, 4)
+    col = [0.0] * n
+    for pos, i in enumerate(order):
+      col[i] = base + vals[pos]
+    cols.append(col)
+  return [[float(cols[u][i]) for u in range(units)] for i in range(n)]
 
 
 BOUND_FORMS = ["list", "list", "list", "tuple", "str", "str", "tuple_str"]
@@ -162,10 +298,15 @@ def gen_descs(ctx):
       a, w = tfimpl.dy(rng, -2, 2), rng.choice([0.5, 1.0, 2.0])
       lo, hi = [a] * n, [a + w] * n
     norm = rng.choice([None, None, 1, 2])
-    klass = rng.choice(["random", "random", "ties", "zeros", "far", "signfeasible", "tiny", "small"])
-    W = rand_weights(rng, n, units, klass, monos)
-    out.append(dict(kind="linear", n=n, units=units, monos=monos, mdom=mdom, rdom=rdom, lo=lo, hi=hi,
-                    norm=norm, W=W, wclass=klass, lo_form=rng.choice(BOUND_FORMS), hi_form=rng.choice(BOUND_FORMS)))
+    klass = rng.choice(["random", "random", "ties", "zeros", "far", "signfeasible", "tiny", "small", "feasible",
+                        "feasible"])
+    d = dict(kind="linear", n=n, units=units, monos=monos, mdom=mdom, rdom=rdom, lo=lo, hi=hi, norm=norm)
+    W = feasible_linear(rng, d) if klass == "feasible" else None
+    if W is None:
+      klass = "random" if klass == "feasible" else klass
+      W = rand_weights(rng, n, units, klass, monos)
+    d.update(W=W, wclass=klass, lo_form=rng.choice(BOUND_FORMS), hi_form=rng.choice(BOUND_FORMS))
+    out.append(d)
   for _ in range(ctx.n(250, 3000)):
     n = rng.randint(2, 8)
     units = rng.choice([1, 1, 2, 3])
@@ -183,9 +324,14 @@ def gen_descs(ctx):
     lo = a if bmode in ("lo", "both") else None
     hi = a + rng.choice([0.0, 1.0, 4.0]) if bmode in ("hi", "both") else None
     lo, hi = tfimpl.zero_bound(rng, lo, hi)
-    klass = rng.choice(["random", "random", "ties", "zeros", "far"])
-    W = rand_weights(rng, n, units, klass)
-    out.append(dict(kind="cat", n=n, units=units, pairs=pairs, lo=lo, hi=hi, W=W, wclass=klass))
+    klass = rng.choice(["random", "random", "ties", "zeros", "far", "feasible", "feasible"])
+    d = dict(kind="cat", n=n, units=units, pairs=pairs, lo=lo, hi=hi)
+    W = feasible_categorical(rng, d) if klass == "feasible" else None
+    if W is None:
+      klass = "random" if klass == "feasible" else klass
+      W = rand_weights(rng, n, units, klass)
+    d.update(W=W, wclass=klass)
+    out.append(d)
   return out
 
 
@@ -252,6 +398,15 @@ def eval_cases(ctx, descs):
                 fail = "unit %d has norm %r (order %d), neither 1 nor numerically zero" % (u, nrm, d["norm"])
           if fail is None and np.abs(np.array(again) - R).max() > 1e-9 * max(1, abs(R).max()):
             fail = "a feasible result is moved by projecting again (max change %r)" % np.abs(np.array(again) - R).max()
+          # weights that already satisfy every constraint (exactly; after a float normalisation within 1e-12) are
+          # returned unchanged
+          slack, off = lin_slack(d, W)
+          feasible_in = slack >= (-1e-12 if d["norm"] else 0.0) and off <= 1e-12
+          if d["wclass"] == "feasible" and not feasible_in and fail is None:
+            fail = "harness: constructed feasible weights do not pass the constraint predicates (slack %r, norm off by %r)" % (
+                slack, off)
+          if feasible_in and fail is None and np.abs(R - W).max() > 1e-9 * max(1.0, np.abs(W).max()):
+            fail = "weights that already satisfy every constraint are changed by %r" % np.abs(R - W).max()
       if exc == "ValueError" and not built:
         # every generated configuration is valid for verify_hyperparameters (cycles of length >= 3 included)
         fail = "LinearConstraints(...) rejected a valid configuration with ValueError"
@@ -285,13 +440,18 @@ def eval_cases(ctx, descs):
         if d["hi"] is not None and R.max() > d["hi"] + eps: fail = "value above output_max"
         if fail is None and np.abs(np.array(again) - R).max() > eps:
           fail = "a feasible result is moved by projecting again"
+        feasible_in = cat_slack(d, W) >= 0.0
+        if d["wclass"] == "feasible" and not feasible_in and fail is None:
+          fail = "harness: constructed feasible values do not pass the constraint predicates"
+        if feasible_in and fail is None and np.abs(R - W).max() > 1e-9 * max(1.0, np.abs(W).max()):
+          fail = "values that already satisfy every constraint are changed by %r" % np.abs(R - W).max()
       coq = "CCat %s %s %s %s %s %s" % (cnatpairs(d["pairs"]), copt(d["lo"]), copt(d["hi"]), cnat(d["units"]),
                                          cqm(d["W"]), copt(out, cqm) if exc is None else "None")
       klass = "cat_%s_%s" % ("cyc" if exc else ("pairs" if d["pairs"] else "nopairs"), d["wclass"])
     if exc is not None and exc != "ValueError":
       coq = None
     moved = out is not None and np.abs(np.array(out) - W).max() > 1e-12
-    cases.append(Case(d, coq=coq, pred_fail=fail, nontrivial=bool(moved), klass=klass,
+    cases.append(Case(d, coq=coq, pred_fail=fail, nontrivial=bool(moved) or d["wclass"] == "feasible", klass=klass,
                       info={"impl_output": out, "impl_exception": exc}))
   return cases
 
